@@ -65,6 +65,11 @@ CLAIMS = {
         "Trusted: symx interception layer, z3, exp2 lemmas; read_cna is stubbed to hand in the harness's in-memory arrays (file parsing is C08). Digits of emitted floats are opaque tokens.",
         "DESIGN.md 4/C20",
     ),
+    "C03": (
+        "The real do_segmentation runs for the methods none, haar, hmm, hmm-tumor, hmm-germline on 3 bins of one chromosome or 2 + 2 bins of two (thorough 4 / 3 + 2) with symbolic coordinates, log2 (null coverage reachable), weights (0 reachable) and depths, with skip_low, min_weight and an arbitrary outlier mask; haarSeg's breakpoint set and the HMM's state sequence are arbitrary solver-chosen values, so every segmentation those components could return is explored through the real one_chrom / squash_by_groups / transfer_fields / concat code. z3 proves per path the statement's clauses: sorted, positive length, disjoint, inside the chromosome's input span, every surviving bin in exactly one segment, probes = count, sum of probes = survivors, arm endpoints for none/haar, weight = sum and depth = weighted mean over all input bins spanned, gene list, and weighted-mean log2 of the survivors for none/hmm.",
+        "Trusted: symx interception layer, z3; stubs: haarSeg (arbitrary breakpoints), hmm_get_model.predict (arbitrary states), smooth_log2 (identity), rolling_outlier_quantile (arbitrary mask). cbs/flasso (R) and process pools are outside.",
+        "DESIGN.md 4/C03",
+    ),
     "C06": (
         "Every feasible path of the real merge/flatten/subtract/intersection/subdivide/resize_ranges/total_range_size code on tables of <= 3 rows (quick; 4 thorough) with fully symbolic integer coordinates in [0, 10^6] is enumerated by z3; on each path the base-exactness oracle (one universally quantified position x) and the structural clauses are discharged as unsat. A bounded model check of the real code, not a proof: nothing is claimed beyond the row bounds.",
         "Trusted: the symx interception layer (object-dtype pandas semantics = int64 semantics, validated by replaying explored paths on the untouched code), z3; avg/min sizes of subdivide concrete.",
